@@ -7,6 +7,10 @@ Streams
                 expression + specificity order, written here without werkzeug's matcher
   part-kernels  Rule._parts (content flags, weights) and re.compile(part.content).match(target)
                 vs the model's parseRule / matchDyn
+  schedules     two or three request threads doing the first match on a shared map (or the first match after
+                Map.add) under a forced interleaving of the steps of Map.update (every pre-emption point);
+                real event trace + outcomes vs the driver running the regenerated Map.update program
+                (route.sched); oracle = the C03 reference on every thread's outcome
 
 The module also holds the routing case language (JSON rule maps -> werkzeug objects / driver wire
 text) shared with harness/c04.py and harness/c12.py.
@@ -30,7 +34,7 @@ from vlib.core import Check, Stream, b01, hs, line
 #          "endpoint": str, "defaults": {name: value}, "alias": bool, "ws": bool, "bo": bool}
 #   value ["s", text] | ["i", int] | ["f", text] | ["u", text]
 #   cfg   {"strict": b, "merge": b, "rd": b, "hm": b, "dsub": [tok]}
-#   adapter {"server": str, "script": str, "sub": None|str, "scheme": str, "dm": str, "qa": None|["t", s]|["p", [[k, v]..]]}
+#   adapter {"server": str, "script": str, "sub": None|str, "scheme": str, "dm": str, "qa": None|["t", s]|["p", [[k, v]..]]|["m", [[k, [v..]]..]]}
 
 
 def mk_rule(toks, endpoint="e", dom=None, methods=None, strict=None, merge=None, defaults=None, alias=False, ws=False, bo=False):
@@ -183,10 +187,40 @@ def real_map(cfg, rules):
     return m, robjs
 
 
+def qa_pairs(qa):
+    """the (key, value) pairs a mapping form of query args stands for, in order"""
+    if qa[0] == "p":
+        pairs = [tuple(p) for p in qa[1]]
+        keys = []
+        for k, _ in pairs:
+            if k not in keys:
+                keys.append(k)
+        if len(keys) == len(pairs):
+            return pairs
+        # repeated keys travel as a MultiDict, which keeps the values per key (keys in first-seen order)
+        return [(k, v) for k in keys for k2, v in pairs if k2 == k]
+    return [(k, v) for k, vs in qa[1] for v in vs]
+
+
+def qa_object(qa):
+    """query args the way the public API documents them: None, a str, or a Mapping - a dict (values may be
+    lists / tuples of values: ["m", [[key, [v, ...]], ...]]) or, for repeated keys, a MultiDict"""
+    if qa is None:
+        return None
+    if qa[0] == "t":
+        return qa[1]
+    if qa[0] == "m":
+        return {k: (tuple(vs) if i % 2 else list(vs)) for i, (k, vs) in enumerate(qa[1])}
+    pairs = [tuple(p) for p in qa[1]]
+    if len({k for k, _ in pairs}) == len(pairs):
+        return dict(pairs)
+    from werkzeug.datastructures import MultiDict
+
+    return MultiDict(pairs)
+
+
 def real_adapter(m, cfg, a):
-    qa = a["qa"]
-    if qa is not None:
-        qa = qa[1] if qa[0] == "t" else [tuple(p) for p in qa[1]]
+    qa = qa_object(a["qa"])
     return m.bind(a["server"], script_name=a["script"], subdomain=None if cfg["hm"] else a["sub"], url_scheme=a["scheme"], default_method=a["dm"], query_args=qa)
 
 
@@ -307,7 +341,7 @@ def w_qa(qa):
         return "~"
     if qa[0] == "t":
         return "t" + hs(qa[1])
-    return "p" + ",".join(hs(k) + "=" + hs(v) for k, v in qa[1])
+    return "p" + ",".join(hs(k) + "=" + hs(v) for k, v in qa_pairs(qa))
 
 
 def w_adapter(a):
@@ -651,7 +685,9 @@ def reference_check(cfg, rules, adapter, path, method, out, ws=None, lenient_nos
     sc = slash_candidates(path_part)
     if sc:
         return (f"outcome {kind} although rule #{sc[0].idx} admits the path with a trailing slash (redirect expected)", shadow)
-    any_method = [x for x in admitting(path_part, False, True) if x[2] and not (lenient_noslash and x[1] == "noslash")]
+    # rules that admit the path but not for the request method - whatever their protocol: the method sets are
+    # looked at before the websocket flag, so these make the answer MethodNotAllowed
+    any_method = [x for x in admitting(path_part, False, False) if x[2] and not x[0].method_ok(method) and not (lenient_noslash and x[1] == "noslash")]
     if kind == "404":
         if any_method and any(x[0].methods for x in any_method):
             return (f"NotFound although rule #{any_method[0][0].idx} admits the path for other methods (405 expected)", shadow)
@@ -663,11 +699,11 @@ def reference_check(cfg, rules, adapter, path, method, out, ws=None, lenient_nos
         got = set(bytes.fromhex(x).decode() for x in out[4:].split(",")) if out[4:] != "[]" else set()
         must = set().union(*[x[0].methods or set() for x in any_method]) if any_method else set()
         may = set(must)
-        for x in admitting(path_part, False, True):
+        for x in admitting(path_part, False, False):
             may |= x[0].methods or set()  # incl. rules admitting before validation (visited by the search)
         if cfg["merge"]:
             for p in merged_variants(path_part):
-                for x in admitting(p, False, True):
+                for x in admitting(p, False, False):
                     may |= x[0].methods or set()
         if not may:
             return (f"MethodNotAllowed {sorted(got)} although no rule admits the path", shadow)
@@ -675,7 +711,9 @@ def reference_check(cfg, rules, adapter, path, method, out, ws=None, lenient_nos
             return (f"MethodNotAllowed lists {sorted(got)}, admitting rules have {sorted(must)}", shadow)
         return None
     if kind == "WSM":
-        anything = [x for x in admitting(path_part, True, False) if x[2]]
+        # (the property text does not speak about WebsocketMismatch: it is accepted whenever a rule of the other
+        # protocol admits the path for the method by its pattern - the flag is looked at before to_python runs)
+        anything = admitting(path_part, True, False)
         if not anything and not (cfg["merge"] and any(admitting(p, True, False) for p in merged_variants(path_part))):
             return ("WebsocketMismatch although no rule admits the path", shadow)
         return None
@@ -886,6 +924,10 @@ class MatchStream(Stream):
         {"cfg": mk_cfg(), "rules": [mk_rule(toks_of("/<string:s>"), "s"), mk_rule(toks_of("/<path:p>"), "p"), mk_rule(toks_of("/<int:i>"), "i"), mk_rule(toks_of("/12"), "l")], "adapter": mk_adapter(), "probes": [["/12", "GET"], ["/13", "GET"], ["/ab", "GET"], ["/a/b", "GET"]]},
         {"cfg": mk_cfg(), "rules": [mk_rule(toks_of("/x<string:s>"), "s"), mk_rule(toks_of("/<int:i>"), "i"), mk_rule(toks_of("/<int:j>/"), "j"), mk_rule(toks_of("/<a>/<b>"), "ab"), mk_rule(toks_of("/<a>/x"), "ax")], "adapter": mk_adapter(), "probes": [["/x1", "GET"], ["/1", "GET"], ["/1/", "GET"], ["/1/x", "GET"], ["/1/y", "GET"]]},
         {"cfg": mk_cfg(), "rules": [mk_rule(toks_of("/w"), "w", ws=True), mk_rule(toks_of("/h"), "h")], "adapter": mk_adapter(scheme="ws"), "probes": [["/w", "GET"], ["/h", "GET"]]},
+        # websocket flag x the "would match with an additional slash" probe (seeded change C12-d1)
+        {"cfg": mk_cfg(), "rules": [mk_rule(toks_of("/bar/"), "bar")], "adapter": mk_adapter(scheme="ws"), "probes": [["/bar", "GET"], ["/bar/", "GET"]]},
+        {"cfg": mk_cfg(), "rules": [mk_rule(toks_of("/bar/"), "bar", ws=True), mk_rule(toks_of("/b/"), "b", methods=["GET"])], "adapter": mk_adapter(), "probes": [["/bar", "GET"], ["/b", "GET"], ["/bar/", "GET"]], "ws": None},
+        {"cfg": mk_cfg(strict=False), "rules": [mk_rule(toks_of("/bar/"), "bar", ws=True)], "adapter": mk_adapter(), "probes": [["/bar", "GET"], ["/bar/", "GET"]], "ws": True},
         {"cfg": mk_cfg(), "rules": [mk_rule(["/", "/", ["L", "a"], "/", "/", "/", ["L", "b"], "/", "/"], "m")], "adapter": mk_adapter(), "probes": [["/a/b/", "GET"], ["/a//b/", "GET"], ["//a//b//", "GET"], ["/a/b", "GET"]]},
     ]
 
@@ -905,11 +947,21 @@ class MatchStream(Stream):
                 rules.append(r)
             probes = gen_probes(rng, rules, nprobe)
             adapter = mk_adapter(scheme="http")
+            ws = None
+            if rng.random() < 0.15:
+                # the websocket flag as a dimension: websocket rules x adapters bound to ws / wss / http x match(websocket=...)
+                for r in rules:
+                    if rng.random() < 0.5:
+                        r["ws"] = True
+                        if r["methods"] is not None:
+                            r["methods"] = [m for m in r["methods"] if m.upper() in ("GET", "HEAD", "OPTIONS")] or ["GET"]
+                adapter = mk_adapter(scheme=rng.choice(["http", "ws", "wss", "https"]))
+                ws = rng.choice([None, None, True, False])
             if nr <= 4 and (tier == "thorough" or rng.random() < 0.25):
                 for perm in itertools.permutations(range(nr)):
-                    yield {"cfg": cfg, "rules": [rules[i] for i in perm], "adapter": adapter, "probes": probes}
+                    yield {"cfg": cfg, "rules": [rules[i] for i in perm], "adapter": adapter, "probes": probes, "ws": ws}
             else:
-                yield {"cfg": cfg, "rules": rules, "adapter": adapter, "probes": probes}
+                yield {"cfg": cfg, "rules": rules, "adapter": adapter, "probes": probes, "ws": ws}
 
     @staticmethod
     def vary(rng, r, idx, cfg):
@@ -941,11 +993,11 @@ class MatchStream(Stream):
     def real(self, case):
         m, robjs = real_map(case["cfg"], case["rules"])
         a = real_adapter(m, case["cfg"], case["adapter"])
-        return "|".join(real_match(a, robjs, p, meth) for p, meth in case["probes"])
+        return "|".join(real_match(a, robjs, p, meth, ws=case.get("ws")) for p, meth in case["probes"])
 
     def model_line(self, case):
         probes = ",".join(hs(p) + ":" + hs(m) for p, m in case["probes"])
-        return line("route.matchn", w_map(case["cfg"], case["rules"]), w_adapter(case["adapter"]), "~", "~", probes)
+        return line("route.matchn", w_map(case["cfg"], case["rules"]), w_adapter(case["adapter"]), "~", w_opt(b01, case.get("ws")), probes)
 
     def canon_model(self, case, out):
         return "|".join(canon_model_outcome(o) for o in out.split("|"))
@@ -956,11 +1008,11 @@ class MatchStream(Stream):
         if real_out.startswith("EXC"):
             return [("match raised " + real_out, None)]
         for (p, meth), out in zip(case["probes"], real_out.split("|")):
-            r = reference_check(case["cfg"], case["rules"], case["adapter"], p, meth, out)
+            r = reference_check(case["cfg"], case["rules"], case["adapter"], p, meth, out, ws=case.get("ws"))
             if r is None:
                 continue
             fam = None
-            if reference_check(case["cfg"], case["rules"], case["adapter"], p, meth, out, lenient_noslash=True) is None:
+            if reference_check(case["cfg"], case["rules"], case["adapter"], p, meth, out, ws=case.get("ws"), lenient_noslash=True) is None:
                 # the only discrepancy: a branch rule with strict_slashes off admits the slash-less
                 # path, but its methods are not counted for MethodNotAllowed
                 fam = "F03b"
@@ -1084,11 +1136,420 @@ class KernelStream(Stream):
         return "match" if self.nontrivial(case, real_out) else "nomatch"
 
 
+# --------------------------------------------------------------------------
+# forced thread schedules over Map.update / Map.add (shared with harness/c04.py, harness/c12.py)
+#
+# Every step of the protocol is observable through public hooks: `Map.lock_class` (acquire / release),
+# a Map subclass whose `_remap` is a property (flag reads and writes), the instance attributes
+# `_matcher.update` / `_matcher.add` (wrapped), and a Rule subclass whose build_compare_key() is the key
+# function of the per-endpoint sort (called when list.sort has already emptied the list). A controller
+# grants one thread at a time the run to its next stop, so a case's grant list IS the interleaving; the
+# same grant list is run by the driver over the program regenerated from map.py (route.sched).
+
+import threading
+
+
+class ForcedSchedule:
+    def __init__(self, n):
+        self.n = n
+        self.cv = threading.Condition()
+        self.at_stop = [None] * n
+        self.granted = [False] * n
+        self.finished = [False] * n
+        self.free = False
+        self.log = []
+        self.tids = {}
+        self.armed = {}
+        self.results = [None] * n
+        self.stuck = False
+        self.passed = set()  # threads whose (first) update() call has returned: not scheduled any further
+
+    def stop(self, name):
+        """called by instrumented code: returns the scheduled thread id once the step is granted, None
+        for unscheduled threads / after the schedule has ended"""
+        tid = self.tids.get(threading.get_ident())
+        if tid is None or self.free or tid in self.passed:
+            return None
+        with self.cv:
+            self.at_stop[tid] = name
+            self.cv.notify_all()
+            while not self.granted[tid] and not self.free:
+                if not self.cv.wait(timeout=20):
+                    self.stuck = True
+                    self.free = True
+            self.at_stop[tid] = None
+            if self.free and not self.granted[tid]:
+                return None
+            self.granted[tid] = False
+        return tid
+
+    def event(self, tid, ev):
+        self.log.append(f"{tid}:{ev}")
+
+    def _settled(self, tid):
+        return (self.at_stop[tid] is not None and not self.granted[tid]) or self.finished[tid]
+
+    def grant(self, tid):
+        with self.cv:
+            if not self.cv.wait_for(lambda: self._settled(tid), timeout=20):
+                self.stuck = True
+                return
+            if self.finished[tid]:
+                self.log.append(f"{tid}:-")
+                return
+            self.granted[tid] = True
+            self.cv.notify_all()
+            if not self.cv.wait_for(lambda: self._settled(tid), timeout=20):
+                self.stuck = True
+
+    def run(self, actions, grants):
+        """actions: one callable per thread; returns (event log, results, every thread finished within
+        the schedule)"""
+
+        def worker(tid, fn):
+            self.tids[threading.get_ident()] = tid
+            try:
+                self.results[tid] = fn()
+            except Exception as e:  # noqa: BLE001 - the exception class is the observation
+                self.results[tid] = "EXC:" + type(e).__name__
+            finally:
+                with self.cv:
+                    self.finished[tid] = True
+                    self.cv.notify_all()
+
+        ths = [threading.Thread(target=worker, args=(i, fn), daemon=True) for i, fn in enumerate(actions)]
+        for i, t in enumerate(ths):
+            t.start()
+            # threads start one after the other so that each reaches its first stop before the next starts
+            with self.cv:
+                self.cv.wait_for(lambda i=i: self._settled(i), timeout=20)
+        for g in grants:
+            if 0 <= g < self.n:
+                self.grant(g)
+        with self.cv:
+            done_in_schedule = list(self.finished)
+            self.free = True
+            self.cv.notify_all()
+        for t in ths:
+            t.join(20)
+        if self.stuck or any(t.is_alive() for t in ths):
+            raise RuntimeError("forced schedule: a thread did not reach its next stop")
+        # a thread still inside update() when the schedule ends has no outcome under the schedule
+        return list(self.log), [r if d else None for r, d in zip(self.results, done_in_schedule)], all(done_in_schedule)
+
+
+_SCHED = [None]  # the schedule in force (one case at a time)
+
+
+class _ILock:
+    """Map.lock_class: every acquire / release is a stop; a blocked acquire is an event, not a wait"""
+
+    def __init__(self):
+        self._l = threading.Lock()
+
+    def __enter__(self):
+        while True:
+            s = _SCHED[0]
+            tid = s.stop("acq") if s is not None else None
+            if tid is None:
+                if not self._l.acquire(timeout=15):
+                    raise RuntimeError("unscheduled thread blocked on the remap lock")
+                return self
+            if self._l.acquire(blocking=False):
+                s.event(tid, "acq")
+                return self
+            s.event(tid, "blk")
+
+    def __exit__(self, *exc):
+        s = _SCHED[0]
+        tid = s.stop("rel") if s is not None else None
+        if tid is not None:
+            s.event(tid, "rel")
+        self._l.release()
+        return False
+
+
+def instrumented_classes():
+    from werkzeug.routing import Map, Rule
+
+    class IMap(Map):
+        lock_class = _ILock
+
+        def update(self):
+            # the real update(); only the first call of a scheduled thread is scheduled
+            try:
+                return super().update()
+            finally:
+                s = _SCHED[0]
+                if s is not None:
+                    me = s.tids.get(threading.get_ident())
+                    if me is not None:
+                        s.passed.add(me)
+
+        @property
+        def _remap(self):
+            s = _SCHED[0]
+            tid = s.stop("r") if s is not None else None
+            v = self.__dict__["_remap_flag"]
+            if tid is not None:
+                s.armed[tid] = True
+                s.event(tid, f"r{int(bool(v))}")
+            return v
+
+        @_remap.setter
+        def _remap(self, v):
+            s = _SCHED[0]
+            tid = s.stop("w") if s is not None else None
+            self.__dict__["_remap_flag"] = v
+            if tid is not None:
+                s.event(tid, f"w{int(bool(v))}")
+
+    class IRule(Rule):
+        def build_compare_key(self):
+            s = _SCHED[0]
+            if s is not None and not s.free:
+                me = s.tids.get(threading.get_ident())
+                if me is not None and s.armed.get(me):
+                    s.armed[me] = False
+                    tid = s.stop("se")
+                    if tid is not None:
+                        s.event(tid, "se")
+            return super().build_compare_key()
+
+    return IMap, IRule
+
+
+def instrumented_map(cfg, rules, nctor):
+    """(map built from the first `nctor` rules of the case, Rule objects of all rules in case order)"""
+    IMap, IRule = instrumented_classes()
+    robjs = []
+    for r in rules:
+        kw = {}
+        if r["dom"] is not None:
+            kw["host" if cfg["hm"] else "subdomain"] = rule_string(r["dom"])
+        robjs.append(
+            IRule(
+                rule_string(r["toks"]),
+                endpoint=r["endpoint"],
+                methods=r["methods"],
+                strict_slashes=r["strict"],
+                merge_slashes=r["merge"],
+                defaults={k: py_value(v) for k, v in r["defaults"].items()} or None,
+                alias=r["alias"],
+                websocket=r["ws"],
+                build_only=r["bo"],
+                **kw,
+            )
+        )
+    m = IMap(robjs[:nctor], strict_slashes=cfg["strict"], merge_slashes=cfg["merge"], redirect_defaults=cfg["rd"], host_matching=cfg["hm"], default_subdomain=rule_string(cfg["dsub"]))
+    real_upd, real_add = m._matcher.update, m._matcher.add
+
+    def upd():
+        s = _SCHED[0]
+        tid = s.stop("sm") if s is not None else None
+        if tid is not None:
+            s.event(tid, "sm")
+        return real_upd()
+
+    def add(rule):
+        s = _SCHED[0]
+        tid = s.stop("ma") if s is not None else None
+        if tid is not None:
+            s.event(tid, "ma")
+        return real_add(rule)
+
+    m._matcher.update = upd
+    m._matcher.add = add
+    return m, robjs
+
+
+def run_schedule(case, request_fn):
+    """run the case's threads under its grant list on the real code.
+    case["acts"]: per thread ["A", n] (Map.add of a factory with the next n rules) or a request action
+    handed to request_fn(map, rule objects, action) -> callable returning the canonical outcome.
+    -> (events, results, finished)"""
+    from werkzeug.routing import RuleFactory
+
+    class Many(RuleFactory):
+        def __init__(self, rs):
+            self.rs = rs
+
+        def get_rules(self, map):
+            return iter(self.rs)
+
+    nadd = sum(a[1] for a in case["acts"] if a[0] == "A")
+    nctor = len(case["rules"]) - nadd
+    m, robjs = instrumented_map(case["cfg"], case["rules"], nctor)
+    fns = []
+    nxt = nctor
+    for a in case["acts"]:
+        if a[0] == "A":
+            chunk = robjs[nxt : nxt + a[1]]
+            nxt += a[1]
+            fns.append(lambda chunk=chunk: (m.add(Many(chunk)), "A")[1])
+        else:
+            fns.append(request_fn(m, robjs, a))
+    s = ForcedSchedule(len(fns))
+    _SCHED[0] = s
+    try:
+        return s.run(fns, case["grants"])
+    finally:
+        _SCHED[0] = None
+
+
+def w_grants(gs):
+    return ",".join(str(g) for g in gs) if gs else "-"
+
+
+# the stops of one uncontended update() call: r1 acq r1 sm se w0 rel (7 grants, an 8th finds it finished)
+SOLO = 7
+
+
+def schedule_shapes(rng, nreq, nadd_threads=0, add_sizes=()):
+    """grant lists: the add threads first (to completion), then thread `nadd_threads` pre-empted after k of
+    its stops while the others run to completion, then everybody to completion; plus random
+    interleavings of the request threads"""
+    pre = []
+    for i, n in enumerate(add_sizes):
+        pre += [i] * (n + 2)
+    reqs = list(range(nadd_threads, nadd_threads + nreq))
+    out = []
+    first, rest = reqs[0], reqs[1:]
+    for k in range(0, SOLO + 2):
+        g = list(pre) + [first] * k
+        for o in rest:
+            g += [o] * (SOLO + 3)
+        g += [first] * (SOLO + 3)
+        for o in rest:
+            g += [o] * (SOLO + 3)
+        out.append(g)
+    for _ in range(4):
+        g = list(pre)
+        pool = [t for t in reqs for _ in range(SOLO + 3)]
+        rng.shuffle(pool)
+        out.append(g + pool + [t for t in reqs for _ in range(SOLO + 3)])
+    return out
+
+
+def adverse_priority_maps(rng):
+    """rule pairs whose documented priority is the opposite of the insertion order, with a path both admit"""
+    pairs = [
+        ("/<string:s>", "/<int:n>", ["/7", "/42"]),
+        ("/<path:p>", "/<string:s>", ["/ab", "/x"]),
+        ("/<string:s>", "/<float:f>", ["/1.5"]),
+        ("/<path:p>", "/<int:n>", ["/12"]),
+        ("/<string:s>", "/items", ["/items"]),
+        ("/a/<string:s>", "/a/<int:n>", ["/a/7"]),
+        ("/<path:p>", "/x/<int:n>", ["/x/1"]),
+        ("/<string:s>/", "/<int:n>/", ["/7/"]),
+    ]
+    a, b, paths = rng.choice(pairs)
+    return [mk_rule(toks_of(a), "broad"), mk_rule(toks_of(b), "narrow")], paths
+
+
+class ScheduleStream(Stream):
+    """C03 over thread schedules: two or three request threads doing the first match on a shared map
+    (or the first match after Map.add), every pre-emption point of the first thread. Correspondence:
+    event trace and outcomes vs the driver running the regenerated Map.update program under the same
+    grants (a thread that leaves update() with both structures sorted gets the single-threaded
+    outcome). Oracle: the C03 reference (per-rule regular expression + documented priority) on every
+    thread's outcome."""
+
+    name = "schedules"
+    corpus = [
+        # seeded change C03-c1: thread 0 pre-empted in front of StateMachineMatcher.update (4 stops), thread 1
+        # matches meanwhile
+        {"cfg": mk_cfg(), "rules": [mk_rule(toks_of("/<string:s>"), "str"), mk_rule(toks_of("/<int:n>"), "int")], "adapter": mk_adapter(), "acts": [["M", "/7", "GET"], ["M", "/7", "GET"]], "grants": [0, 0, 0, 0] + [1] * 10 + [0] * 10 + [1] * 10},
+        {"cfg": mk_cfg(), "rules": [mk_rule(toks_of("/<string:s>"), "str"), mk_rule(toks_of("/<int:n>"), "int")], "adapter": mk_adapter(), "acts": [["M", "/7", "GET"], ["M", "/7", "GET"]], "grants": [0, 0, 0] + [1] * 10 + [0] * 10 + [1] * 10},
+        # the first match after Map.add
+        {"cfg": mk_cfg(), "rules": [mk_rule(toks_of("/<string:s>"), "str"), mk_rule(toks_of("/x"), "x"), mk_rule(toks_of("/<int:n>"), "int")], "adapter": mk_adapter(), "acts": [["A", 2], ["M", "/7", "GET"], ["M", "/7", "GET"]], "grants": [0, 0, 0, 0, 1, 1, 1, 1, 1] + [2] * 10 + [1] * 10 + [2] * 10},
+    ]
+
+    def cases(self, rng, tier):
+        n = 0
+        limit = 300 if tier == "quick" else 3000
+        while n < limit:
+            rules, paths = adverse_priority_maps(rng)
+            extra = []
+            if rng.random() < 0.4:
+                r, _ = gen_rule(rng, 2, mk_cfg())
+                r["endpoint"] = "extra"
+                r["bo"] = False
+                extra = [r]
+            cfg = mk_cfg(strict=rng.random() < 0.8, merge=rng.random() < 0.8)
+            nreq = rng.choice([2, 2, 3])
+            with_add = rng.random() < 0.35
+            allrules = extra + rules if with_add else rules + extra
+            acts = [["M", rng.choice(paths), "GET"] for _ in range(nreq)]
+            if with_add:
+                k = rng.choice([1, 2]) if len(allrules) > 2 else 1
+                acts = [["A", k]] + acts
+                shapes = schedule_shapes(rng, nreq, 1, (k,))
+            else:
+                shapes = schedule_shapes(rng, nreq)
+            for g in shapes:
+                n += 1
+                yield {"cfg": cfg, "rules": allrules, "adapter": mk_adapter(), "acts": acts, "grants": g}
+
+    @staticmethod
+    def request_fn(case):
+        def mk(m, robjs, a):
+            def go():
+                ad = real_adapter(m, case["cfg"], case["adapter"])
+                return real_match(ad, robjs, a[1], a[2])
+
+            return go
+
+        return mk
+
+    def real(self, case):
+        ev, res, fin = run_schedule(case, self.request_fn(case))
+        return f"{','.join(ev) if ev else '[]'} ; {'|'.join('~' if r is None else str(r) for r in res)} ; {b01(fin)}"
+
+    def model_line(self, case):
+        acts = "!".join(f"A{a[1]}" if a[0] == "A" else "M" + hs(a[1]) + ":" + hs(a[2]) for a in case["acts"])
+        return line("route.sched", w_map(case["cfg"], case["rules"]), w_adapter(case["adapter"]), "~", "~", acts, w_grants(case["grants"]))
+
+    def canon_model(self, case, out):
+        parts = out.split(" ; ")
+        if len(parts) == 3:
+            parts[1] = "|".join(canon_model_outcome(o) for o in parts[1].split("|"))
+        return " ; ".join(parts)
+
+    def oracle(self, case, real_out):
+        if real_out.startswith("EXC"):
+            return "forced schedule raised " + real_out
+        _, res, _ = real_out.split(" ; ")
+        for a, out in zip(case["acts"], res.split("|")):
+            if a[0] == "A":
+                continue
+            if out == "~":
+                continue
+            if out.startswith("EXC"):
+                return f"thread matching {a[1]!r} under the schedule: {out}"
+            r = reference_check(case["cfg"], case["rules"], case["adapter"], a[1], a[2], out)
+            if r is not None:
+                return f"path {a[1]!r} {a[2]} matched while another thread was inside Map.update(): {r[0]}"
+        return None
+
+    def nontrivial(self, case, real_out):
+        return "blk" in real_out or ":r0" in real_out
+
+    def bucket(self, case, real_out):
+        ev = real_out.split(" ; ")[0]
+        return ("blocked" if "blk" in ev else "unblocked") + ("+fast" if ":r0" in ev else "") + ("+add" if ":ma" in ev else "")
+
+    def mutate(self, case, rng):
+        g = case["grants"]
+        for i in range(len(g)):
+            yield {**case, "grants": g[:i] + g[i + 1 :]}
+
+
 CHECK = Check(
     prop="C03",
-    gen=["Routing", "RoutingSamples"],
-    modules=["WzVerif.Props.C03"],
-    streams=[MatchStream(), KernelStream()],
+    gen=["Routing", "RoutingSamples", "RoutingLock", "RoutingParts", "RoutingGlue"],
+    modules=["WzVerif.Props.C03", "WzVerif.Props.C03L"],
+    streams=[MatchStream(), KernelStream(), ScheduleStream()],
     assumptions=[
         "model scope: one converter per rule part (the property's grammar); a part with two converters is outside the model (driver answers UNSUPPORTED, never generated); redirect_to rules and custom converters are not modelled",
         "RulePart equality (content, final, static, suffixed, weight) is modelled as structural equality of (prefix literal, regex kind, suffix literal, final, suffixed, weight); regex text <-> kind is checked for instantiated live converters by decide (conv_samples_match_model) and behaviourally by both streams",
@@ -1096,6 +1557,9 @@ CHECK = Check(
         "int() of a digit string is unbounded in the model (CPython refuses > 4300 digits with ValueError: outside the stream's alphabet); float values are positional decimal text, Python's float<->text and float comparison at min/max are correspondence-tested only; uuid.UUID(text) = lower-casing",
         "reference (oracle) reading of a rule: one anchored regular expression per rule built from the rule tokens + to_python validation; a branch rule ending in a path converter requires the value not to end in '/' (werkzeug's `(?<!/)`); non-strict rules admit one missing / extra final slash (a rule ending in a path converter swallows the extra slash into the value)",
         "specificity order of the reference: exactly the documented one (literal segment beats variable; int/float before string before path for bare variable segments); the Lean theorem match_priority proves the stronger Weighting order",
+        "Map.update / Map.add protocol (Props/C03L, shared by C03 / C04 / C12): the statement order of both functions is regenerated from map.py by AST (Gen/RoutingLock; an unknown statement becomes `.other` and breaks the discipline obligations); the interleaving semantics is a model: each statement is atomic except the two sorts, which pass through an unsorted state (list.sort empties the list while it runs); rules are abstract ids and sortedness w.r.t. a set of rules is the only property of the structures that is kept; threads / the GIL / Lock are Python's (modelled, validated by stream schedules: the real code is stepped through the same grant lists via Map.lock_class, a Map subclass with a `_remap` property, wrapped _matcher.update / add and a Rule subclass whose build_compare_key stops inside the endpoint sort). update_passes_sorted assumes add() threads do not move while the lock is held (necessary on the unchanged code: add_during_update_loses_flag - Map.add concurrent with request handling is outside the documented use)",
+        "generated ties to the source (decide obligations): converter class table and live instances (regex text, weight, part_isolating), anchoring probes of the compiled part regexes, live Rule._parts of sample rules vs parseRule (content text incl. escaping / group name / suffix / anchor, flags, Weighting), the slash-merging re.sub literals and their behaviour, the control skeleton of the inner _match (every if / for header, raise, return in order). Not generated: `_part_re` (rule strings are given as tokens; Rule strings are rendered by the harness and parsed by werkzeug - stream part-kernels compares the resulting parts)",
+        "websocket flag: rules with websocket=True x adapters bound to http / https / ws / wss x match(websocket=...) are part of the generated space; the reference counts method sets before the websocket flag for MethodNotAllowed (as the matcher does) and accepts WebsocketMismatch whenever a rule of the other protocol admits the path by its pattern (the property text does not mention it)",
         "known finding F03: to_python runs after rule selection, ValidationError becomes NoMatch without backtracking (negation witness match_notfound_only_if_full_false; theorems assume ConvOK)",
         "known finding F03b: the slash-less admission of a non-strict branch rule is not counted for MethodNotAllowed (negation witnesses match_notfound_any_method_full_false, match_405_full_false)",
         "known finding F03d: literal text after a path converter is part of the same slash-consuming RulePart and counts in its Weighting (number of static weights first), so Rule('/<path:p>/edit') outranks Rule('/<string:s>/edit') and Rule('/<int:i>/edit') - against the documented 'int/float before string before path'; match_priority proves the Weighting order the code implements, witness path_with_literal_tail_beats_narrower",
@@ -1109,8 +1573,8 @@ CHECK = Check(
 )
 
 MANIFEST = {
-    "level_text": "Machine-checked Lean 4 theorems about an executable model of Rule compilation, StateMachineMatcher.add/update/match (same control flow: static before dynamic, weight-sorted dynamics, backtracking, slash / merged-slashes passes, conversion after selection) and MapAdapter.match, against a per-rule recogniser that is independent of all other rules: soundness, NotFound and MethodNotAllowed characterisations, priority (returned rule is specificity-minimal) for arbitrary rule lists and paths; converter regex/weight tables regenerated from the live DEFAULT_CONVERTERS and checked by decide; model tied to the code by two differential streams; an independent regex-per-rule oracle runs on the real code.",
-    "level_note": "Trusted: Lean kernel; extract.py; harness; CPython re/int/float/uuid (modelled, stream-validated). NotFound/405 theorems are _partial: they assume to_python accepts what the regex accepts (F03), count no slash-less admissions (F03b) and, for 405, no slash merging; insertion-order independence is proved in a _partial form (search-None equivalence; equal result when the specificity order is decisive), full strength OPEN. Known findings F03, F03b, F03c, F03d.",
+    "level_text": "Machine-checked Lean 4 theorems about an executable model of Rule compilation, StateMachineMatcher.add/update/match (same control flow: static before dynamic, weight-sorted dynamics, backtracking, slash / merged-slashes passes, conversion after selection) and MapAdapter.match, against a per-rule recogniser that is independent of all other rules: soundness, NotFound and MethodNotAllowed characterisations, priority (returned rule is specificity-minimal) for arbitrary rule lists and paths; converter regex/weight tables regenerated from the live DEFAULT_CONVERTERS and checked by decide; model tied to the code by two differential streams; an independent regex-per-rule oracle runs on the real code. Round 3: the lazy re-sort protocol Map.update / Map.add (statement order regenerated from map.py) is proved safe for every number of threads and every interleaving (whoever leaves update() sees both structures sorted w.r.t. the rules added before it entered), with the moved-flag variant refuted; live Rule._parts, the slash-merging regex and the control skeleton of _match are decide obligations; a forced-schedule stream steps the real code through the same interleavings.",
+    "level_note": "Trusted: Lean kernel; extract.py; harness; CPython re/int/float/uuid (modelled, stream-validated). NotFound/405 theorems are _partial: they assume to_python accepts what the regex accepts (F03), count no slash-less admissions (F03b) and, for 405, no slash merging; insertion-order independence is proved in a _partial form (search-None equivalence; equal result when the specificity order is decisive), full strength OPEN. The protocol theorem assumes add() threads are quiet while the lock is held (shown necessary); threads, Lock and list.sort atomicity are modelled, schedule-validated. Known findings F03, F03b, F03c, F03d.",
     "technique": "Lean 4 proof (induction over the nested trie, strict-weak-order proof for Weighting, decide +kernel over regenerated tables and concrete witnesses) + model/code correspondence",
     "design_ref": "DESIGN.md section 4, C03",
 }
